@@ -660,6 +660,13 @@ pub fn check_main(worlds: &[World], args: CheckArgs) -> i32 {
         let ctx_avoid: Vec<String> = if !avoid.is_empty() && index % 8 != 0 { avoid.clone() } else { Vec::new() };
         let (outcome, tape) = exec_index_child(world, &args, &ctx_avoid, *index);
         let ChildOutcome::Died { signature, detail } = outcome else {
+            if how == "hang" {
+                // the limit of a child is a little longer than the one of a worker: a run that
+                // needs more processor time than the worker allows but ends on its own is a
+                // slow run, not a hang (and not a reason to call the check broken)
+                eprintln!("[simctl] note: run {index} of world {} exceeded the watchdog limit in its worker but terminates when run alone: slow, not hung", world.name);
+                continue;
+            }
             eprintln!(
                 "[simctl] HARNESS ERROR: worker died at index {index} ({how}) but the run does not fail alone"
             );
